@@ -40,12 +40,17 @@ class Execution:
 
 
 class Explorer:
-    def __init__(self, make_bodies, is_point, bound=2, max_executions=None):
-        """make_bodies() -> list of callables (fresh per execution); is_point(frame, event) -> bool."""
+    def __init__(self, make_bodies, is_point, bound=2, max_executions=None, visit_cap=None):
+        """make_bodies() -> list of callables (fresh per execution); is_point(frame, event) -> bool.
+
+        visit_cap: if set, only the first `visit_cap` visits of each (code object, line) by each thread are scheduling
+        points (loops are unrolled that many times; later iterations run without a decision).  Executions are
+        deterministic, so the numbering of the points is the same in every replay of a prefix."""
         self.make_bodies = make_bodies
         self.is_point = is_point
         self.bound = bound
         self.max_executions = max_executions
+        self.visit_cap = visit_cap
         self.executions = 0
         self.capped = False
 
@@ -91,8 +96,17 @@ class Explorer:
                 sems[me].acquire()
 
         def make_tracer(me):
+            visits = {}
+            cap = self.visit_cap
+
             def local(frame, event, arg):
                 if event == "line" and self.is_point(frame, event):
+                    if cap is not None:
+                        key = (frame.f_code, frame.f_lineno)
+                        k = visits.get(key, 0)
+                        if k >= cap:
+                            return local
+                        visits[key] = k + 1
                     state["where"] = f"T{me}:{frame.f_code.co_name}:{frame.f_lineno}"
                     nxt = decide(me)
                     switch(me, nxt)
